@@ -12,8 +12,14 @@ Findings on the unchanged tree (each with a witness theorem and a guarded `…_p
   * datediff_saturates              DATEDIFF goes through time.Duration: saturates beyond 106752 days
   * monthsdiff_minutes_ignored      sql.SecondsPerMinute = int64(time.Second/time.Minute) = 0
   * timedelta_year_month_intermediate_feb29   API level only (no SQL unit has years and months)
+  * datetime_text_year_below_1000   the SQL text of a DATE/DATETIME value of year 1..999 has an unpadded year:
+                                    it is not the `%Y-%m-%d …` text and does not read back (same root defect as
+                                    C28 `date_year_below_1000`; here: format ↔ parse consistency of a computed value)
+  * dateadd_result_before_year_zero DATE_ADD/DATE_SUB check the result against ZeroTime (= −0001-11-30 in Go): results
+                                    in the 32 days before the year 0 are returned (`-1-12-29 …`) instead of NULL
 -/
 import Gms.Lemmas.CalDelta2
+import Gms.Lemmas.CalSqlText
 import Gms.Lemmas.CalDiff
 import Gms.Lemmas.CalParse
 import Gms.Generated.C31
@@ -65,6 +71,34 @@ theorem facts_match :
     Generated.C31.microsecondsPerWeek = 604800000000 ∧
     Generated.C31.monthsPerQuarter = 3 ∧
     Generated.C31.monthsPerYear = 12 := by
+  decide
+
+/-- one row of the dumped table: the Impl model of `datetimeType.SQL` writes the text the compiled code wrote -/
+def sampleMatches (e : String × List Int × String) : Bool :=
+  match SqlKind.ofName? e.1, e.2.1 with
+  | some k, [y, mo, d, h, mi, s, ns] => sqlTextImpl k (goDate ⟨y, mo, d, h, mi, s, ns⟩) == ofString e.2.2
+  | _, _ => false
+
+/-- The text `types.Date / Datetime / Datetime3 / DatetimeMaxPrecision .SQL` writes (freshly compiled code,
+11 sample values covering the year classes 0, 1..999, 1000..9999 × 4 types) is the text of the Impl model
+`sqlTextImpl` — unpadded years included. -/
+theorem facts_match_sqltext :
+    Generated.C31.sqlTextSamples.all sampleMatches = true ∧ Generated.C31.sqlTextSamples.length = 44 := by
+  decide
+
+def probeMatches (e : List Int × Bool) : Bool :=
+  match e.1 with
+  | [y, mo, d, h, mi, s, ns] => (validateTime (goDate ⟨y, mo, d, h, mi, s, ns⟩)).isSome == e.2
+  | _ => false
+
+/-- `types.ZeroTime` is the instant the model calls `zeroTime` (−0001-11-30 00:00:00), and the compiled
+`types.ValidateTime` accepts exactly what the Impl model `validateTime` accepts on 13 probes around both ends
+of the range (the last instant before ZeroTime, ZeroTime, the year −1, the year 0, 9999-12-31 23:59:59.999999,
+the nanoseconds after it, the year 10000). -/
+theorem facts_match_range :
+    Generated.C31.zeroTimeFields = [-1, 11, 30, 0, 0, 0, 0] ∧
+    fieldsOf zeroTime = ⟨-1, 11, 30, 0, 0, 0, 0⟩ ∧
+    Generated.C31.validateTimeProbes.all probeMatches = true ∧ Generated.C31.validateTimeProbes.length = 13 := by
   decide
 
 /-! ## 1. The calendar -/
@@ -342,5 +376,141 @@ theorem timestampdiff_partial (u : TsUnit) (t1 t2 : Int) (hr : monthsdiff_minute
 /-- month counting inverts month addition: `n ≥ 0` whole months after `t` (no clamp) are counted as `n` -/
 example : monthsDiffSpec (goDate ⟨2024, 1, 15, 8, 0, 0, 0⟩)
     (specDelta ⟨0, 13, 0, 0, 0, 0, 0⟩ 1 (goDate ⟨2024, 1, 15, 8, 0, 0, 0⟩)) = 13 := by decide
+
+/-! ## 6. The SQL text of a DATE / DATETIME value (what a client is sent for a temporal result)
+
+Spec: the text is the canonical `%Y-%m-%d[ %H:%i:%s[.%f]]` rendering — the one DATE_FORMAT produces
+(`sqltext_spec_is_date_format`) and STR_TO_DATE reads back to the same value (`sqltext_spec_reads_back`).
+Impl model: `appendDateFormat` / `appendDatetimeFormat` / `appendTimeFormat` / `appendMicroseconds`. -/
+
+def dateItems : List Item := [.Y, .lit 45, .m, .lit 45, .d]
+def clockItems : List Item := [.H, .lit 58, .i, .lit 58, .s]
+def clock6Items : List Item := [.H, .lit 58, .i, .lit 58, .s, .lit 46, .f]
+
+example : renderItems dateItems = ofString "%Y-%m-%d" ∧ renderItems clock6Items = ofString "%H:%i:%s.%f" := by decide
+
+/-- the Spec text is DATE_FORMAT's: date part `%Y-%m-%d`, clock part `%H:%i:%s` resp. `%H:%i:%s.%f`
+(the `formatDate` model is tied to the code for years 0..9999) -/
+theorem sqltext_spec_is_date_format (t : Int) :
+    formatImpl t (renderItems dateItems) = .ok (sqlDateSpec t) ∧
+    formatImpl t (renderItems clockItems) = .ok (sqlTimeSpecF (fieldsOf t) 0) ∧
+    formatImpl t (renderItems clock6Items) = .ok (sqlTimeSpecF (fieldsOf t) 6) := by
+  have hv := fieldsOf_valid t
+  obtain ⟨_, _, _, _, _, _, _, _, _, _, h7, h8⟩ := hv
+  refine ⟨?_, ?_, ?_⟩
+  · rw [format_items t dateItems (by decide)]
+    simp [dateItems, itemText, sqlDateSpec, sqlDateSpecF]
+  · rw [format_items t clockItems (by decide)]
+    simp [clockItems, itemText, sqlTimeSpecF]
+  · rw [format_items t clock6Items (by decide)]
+    have : ((fieldsOf t).ns / 1000).toNat < 10 ^ 6 := by omega
+    simp [clock6Items, itemText, sqlTimeSpecF, padShow_lt 6 _ this]
+
+/-- … and it reads back: STR_TO_DATE of the Spec text of a date, with the same format, is that date -/
+theorem sqltext_spec_reads_back (f : Fields) (hv : validFields f) (hy : 0 ≤ f.y ∧ f.y ≤ 9999) :
+    parseImpl (sqlDateSpecF f) (renderItems dateItems) = .ok (some (goDate { f with h := 0, mi := 0, s := 0, ns := 0 })) := by
+  have h := (roundtrip_items dateItems f (by decide) hv hy).2
+  have e : dateItems.flatMap (itemText f) = sqlDateSpecF f := by
+    simp [dateItems, itemText, sqlDateSpecF]
+  rw [e] at h
+  rw [h]
+  rfl
+
+theorem zeroTime_year : (fieldsOf zeroTime).y = -1 := by decide
+
+/-- FULL STATEMENT (false on the unchanged tree): `∀ k t, year 0..9999 → sqlTextImpl k t = sqlTextSpec k t`.
+Guarded: outside the year class 1..999 the text sent for a DATE / DATETIME(p ≤ 6) value is the Spec text. -/
+theorem sqltext_eq_spec_partial (k : SqlKind) (t : Int) (hk : ∀ p, k = .datetime p → p ≤ 6)
+    (hy : 0 ≤ (fieldsOf t).y ∧ (fieldsOf t).y ≤ 9999) (hr : datetime_text_year_below_1000 t = false) :
+    sqlTextImpl k t = sqlTextSpec k t := by
+  have hz : t ≠ zeroTime := by
+    intro h; rw [h, zeroTime_year] at hy; omega
+  have hr' : ¬ (1 ≤ (fieldsOf t).y ∧ (fieldsOf t).y ≤ 999) := by
+    simpa [datetime_text_year_below_1000] using hr
+  have hd := sqlDate_eq_spec (fieldsOf t) (fieldsOf_valid t) hy hr'
+  cases k with
+  | date => simp only [sqlTextImpl, sqlTextSpec, sqlDateImpl, sqlDateSpec, hz, if_false, hd]
+  | datetime p =>
+    simp only [sqlTextImpl, sqlTextSpec, sqlDatetimeImpl, sqlDatetimeSpec, hz, if_false, hd,
+      sqlTime_eq_spec (fieldsOf t) p (fieldsOf_valid t) (hk p rfl)]
+
+/-- the region is exact: for every value of year 1..999 the text differs from the Spec text -/
+theorem sqltext_ne_spec_in_region (k : SqlKind) (t : Int) (hk : ∀ p, k = .datetime p → p ≤ 6)
+    (hr : datetime_text_year_below_1000 t = true) : sqlTextImpl k t ≠ sqlTextSpec k t := by
+  have hr' : 1 ≤ (fieldsOf t).y ∧ (fieldsOf t).y ≤ 999 := by
+    simpa [datetime_text_year_below_1000] using hr
+  have hz : t ≠ zeroTime := by
+    intro h; rw [h, zeroTime_year] at hr'; omega
+  cases k with
+  | date =>
+    simp only [sqlTextImpl, sqlTextSpec, sqlDateImpl, sqlDateSpec, hz, if_false]
+    have := sqlDate_ne_spec (fieldsOf t) (fieldsOf_valid t) hr' [] [] rfl
+    simpa using this
+  | datetime p =>
+    simp only [sqlTextImpl, sqlTextSpec, sqlDatetimeImpl, sqlDatetimeSpec, hz, if_false, List.append_assoc]
+    apply sqlDate_ne_spec (fieldsOf t) (fieldsOf_valid t) hr'
+    rw [sqlTime_eq_spec (fieldsOf t) p (fieldsOf_valid t) (hk p rfl)]
+
+/-- witness: `DATE_SUB('1000-05-07 11:28:39', INTERVAL 41 YEAR)` of type DATETIME(6) is sent as
+`959-05-07 11:28:39.000000`; the Spec text is `0959-05-07 11:28:39.000000` -/
+theorem finding_datetime_text_year_below_1000 :
+    ∃ k t, sqlTextImpl k t ≠ sqlTextSpec k t ∧
+      sqlTextImpl k t = ofString "959-05-07 11:28:39.000000" ∧ sqlTextSpec k t = ofString "0959-05-07 11:28:39.000000" :=
+  ⟨.datetime 6, applyDelta ⟨41, 0, 0, 0, 0, 0, 0⟩ (-1) (goDate ⟨1000, 5, 7, 11, 28, 39, 0⟩), by decide, by decide, by decide⟩
+
+-- non-vacuity of the guard: years 0, 1000 and 9999 are outside the region and written alike
+example : datetime_text_year_below_1000 (goDate ⟨1000, 1, 1, 0, 0, 0, 0⟩) = false ∧
+    datetime_text_year_below_1000 (goDate ⟨0, 5, 7, 0, 0, 0, 0⟩) = false ∧
+    sqlTextImpl (.datetime 0) (goDate ⟨0, 5, 7, 11, 28, 39, 0⟩) = ofString "0000-05-07 11:28:39" ∧
+    sqlTextImpl (.datetime 3) (goDate ⟨9999, 12, 31, 23, 59, 59, 7000000⟩) = ofString "9999-12-31 23:59:59.007" ∧
+    sqlTextImpl .date (goDate ⟨999, 12, 31, 0, 0, 0, 0⟩) = ofString "999-12-31" := by decide
+
+/-! ## 7. The result range of DATE_ADD / DATE_SUB -/
+
+/-- FULL STATEMENT (false on the unchanged tree): `∀ t, validateTime t = validateTimeSpec t` — a result
+outside the years 0..9999 is NULL. Guarded: true outside the 32-day window before the year 0. -/
+theorem dateadd_range_partial (t : Int) (hr : dateadd_result_before_year_zero t = false) :
+    validateTime t = validateTimeSpec t := by
+  have hz : zeroTime < yearZeroStart := by decide
+  simp only [dateadd_result_before_year_zero, Bool.and_eq_false_iff, decide_eq_false_iff_not] at hr
+  unfold validateTime validateTimeSpec
+  by_cases h1 : t < zeroTime
+  · have : t < yearZeroStart := by omega
+    simp [h1, this]
+  · have h2 : ¬ t < yearZeroStart := by omega
+    simp [h1, h2]
+
+/-- the Impl range is never narrower than the Spec range: what the Spec accepts is returned unchanged -/
+theorem dateadd_range_complete (t v : Int) (h : validateTimeSpec t = some v) : validateTime t = some v := by
+  have hz : zeroTime < yearZeroStart := by decide
+  unfold validateTimeSpec at h
+  unfold validateTime
+  split at h
+  · simp at h
+  · rename_i hn
+    have : ¬ (t < zeroTime ∨ t > maxTime) := by omega
+    simp only [this, if_false]; exact h
+
+/-- in the region a date of the year −1 (or the zero date) is returned where the Spec demands NULL -/
+theorem dateadd_range_in_region (t : Int) (hr : dateadd_result_before_year_zero t = true) :
+    validateTime t = some t ∧ validateTimeSpec t = none := by
+  have hm : yearZeroStart < maxTime := by decide
+  simp only [dateadd_result_before_year_zero, Bool.and_eq_true, decide_eq_true_eq] at hr
+  unfold validateTime validateTimeSpec
+  have h1 : ¬ (t < zeroTime ∨ t > maxTime) := by omega
+  simp [h1, hr.2]
+
+/-- witness: `DATE_ADD('0009-12-29 17:55:07', INTERVAL -10 YEAR)` is returned as `-1-12-29 17:55:07.000000`
+(NULL expected, as for `INTERVAL -11 YEAR`); `DATE_SUB('0000-01-01', INTERVAL 32 DAY)` is the zero date -/
+theorem finding_dateadd_result_before_year_zero :
+    ∃ t, validateTime t ≠ validateTimeSpec t ∧ sqlTextImpl (.datetime 6) t = ofString "-1-12-29 17:55:07.000000" :=
+  ⟨applyDelta ⟨-10, 0, 0, 0, 0, 0, 0⟩ 1 (goDate ⟨9, 12, 29, 17, 55, 7, 0⟩), by decide, by decide⟩
+
+example : validateTime (applyDelta ⟨-11, 0, 0, 0, 0, 0, 0⟩ 1 (goDate ⟨9, 12, 29, 17, 55, 7, 0⟩)) = none := by decide
+example : applyDelta ⟨0, 0, 32, 0, 0, 0, 0⟩ (-1) yearZeroStart = zeroTime ∧
+    sqlTextImpl (.datetime 6) zeroTime = ofString "0000-00-00 00:00:00.000000" ∧
+    dateadd_result_before_year_zero zeroTime = true := by decide
+example : dateadd_result_before_year_zero (goDate ⟨1000, 1, 1, 0, 0, 0, 0⟩) = false ∧
+    validateTime (goDate ⟨1000, 1, 1, 0, 0, 0, 0⟩) = some (goDate ⟨1000, 1, 1, 0, 0, 0, 0⟩) := by decide
 
 end Gms.C31
